@@ -132,6 +132,11 @@ def main(pid, tier='quick', seed=None, replay=None):
         idx = []
         herr = []
         for i, (c, o) in enumerate(zip(cases, obs)):
+            if o.get('harness_error') == 'timeout' and hasattr(mod, 'timeout_ok') and mod.timeout_ok(c):
+                # a numerical optimisation that did not finish within the per-case limit: nothing observed, nothing claimed
+                o['skipped'] = 'timeout'
+                extra['timeouts_skipped'] = extra.get('timeouts_skipped', 0) + 1
+                continue
             if 'harness_error' in o:
                 herr.append(i)
                 continue
@@ -180,7 +185,7 @@ def main(pid, tier='quick', seed=None, replay=None):
         for i, c in enumerate(cases):
             o = obs[i]
             v = verdicts[i]
-            if v == (0, 0):
+            if v == (0, 0) or o.get('skipped'):
                 continue
             kfs = None
             if hasattr(mod, 'covering_findings'):
